@@ -67,6 +67,12 @@ type C14Params struct {
 	// Prior: another muxer history assembled first in the same world (pooled buffers
 	// and any state shared between Muxer values are then used, not fresh)
 	Prior *MuxSpec `json:"prior,omitempty"`
+	// Mid: the same Muxer is assembled once more in the middle of the history, after
+	// MidAfter calls, into a writer with fault MidWF (a Muxer is used for a file, the
+	// write fails or the caller goes on adding frames, and it is assembled again)
+	Mid      bool       `json:"mid,omitempty"`
+	MidAfter int        `json:"mid_after,omitempty"`
+	MidWF    WriteFault `json:"mid_wf,omitempty"`
 }
 
 type propC14 struct{}
@@ -163,6 +169,12 @@ func (propC14) Gen(seed uint64, tier string, idx int) any {
 		p.Prior = &pm
 		p.Sched.RandomPools, p.Sched.PoolHitPct = true, 100
 	}
+	if r.Pct(25) && idx%1500 != 7 {
+		p.Mid, p.MidAfter = true, r.Intn(len(p.Spec.Calls)+1)
+		if r.Pct(60) {
+			p.MidWF = WriteFault{Kind: r.PickS("err_on_write", "err_on_write", "err_at_byte", "transient_err"), At: r.Intn(10)}
+		}
+	}
 	if r.Pct(30) {
 		// error at each of Assemble's Write calls in turn
 		p.WF = WriteFault{Kind: "err_on_write", At: r.Intn(14)}
@@ -179,6 +191,19 @@ func (propC14) Shrink(pp any) []any {
 	for i := range p.Spec.Calls {
 		q := *p
 		q.Spec.Calls = append(append([]MuxCall{}, p.Spec.Calls[:i]...), p.Spec.Calls[i+1:]...)
+		if q.MidAfter > i {
+			q.MidAfter--
+		}
+		out = append(out, &q)
+	}
+	if p.Mid {
+		q := *p
+		q.Mid, q.MidAfter, q.MidWF = false, 0, WriteFault{}
+		out = append(out, &q)
+	}
+	if p.Prior != nil {
+		q := *p
+		q.Prior = nil
 		out = append(out, &q)
 	}
 	return out
@@ -260,8 +285,53 @@ func clampInt(v, lo, hi int) int {
 	return v
 }
 
+// callerMem is the memory the simulated caller hands to the muxer: every frame and
+// metadata payload is a sub-slice of one buffer, directly followed by the next payload
+// (as when a caller cuts its inputs out of one file or network buffer), so a muxer that
+// writes past the end of a slice it was given damages the payload behind it. The model
+// keeps pristine copies.
+type callerMem struct {
+	buf   []byte
+	frame [][]byte
+}
+
+func newCallerMem(blobs []*frameBlob) *callerMem {
+	n := 0
+	for _, b := range blobs {
+		if b != nil {
+			n += len(b.blob)
+		}
+	}
+	cm := &callerMem{buf: make([]byte, 0, n+1<<10)}
+	for _, b := range blobs {
+		if b == nil {
+			cm.frame = append(cm.frame, nil)
+			continue
+		}
+		cm.frame = append(cm.frame, cm.put(b.blob))
+	}
+	return cm
+}
+
+// put copies b behind everything handed out so far and returns that sub-slice (its
+// capacity reaches into whatever is put later). nil stays nil.
+func (cm *callerMem) put(b []byte) []byte {
+	if b == nil {
+		return nil
+	}
+	if len(cm.buf)+len(b) > cap(cm.buf) {
+		return append([]byte{}, b...) // out of room: a plain copy (never reallocate: earlier slices alias buf)
+	}
+	start := len(cm.buf)
+	cm.buf = append(cm.buf, b...)
+	return cm.buf[start:len(cm.buf)]
+}
+
 // applyCalls drives both the real muxer and the model with the same history.
-func applyCalls(spec MuxSpec, blobs []*frameBlob, m *mux.Muxer, md *muxModel) {
+func applyCalls(spec MuxSpec, blobs []*frameBlob, m *mux.Muxer, md *muxModel, cm *callerMem) {
+	if cm == nil {
+		cm = newCallerMem(blobs)
+	}
 	for _, c := range spec.Calls {
 		switch c.Kind {
 		case "addframe":
@@ -271,9 +341,9 @@ func applyCalls(spec MuxSpec, blobs []*frameBlob, m *mux.Muxer, md *muxModel) {
 			}
 			var err error
 			if c.Nil {
-				err = m.AddFrame(fb.blob, nil)
+				err = m.AddFrame(cm.frame[c.Src], nil)
 			} else {
-				err = m.AddFrame(fb.blob, &mux.FrameOptions{Duration: c.A, OffsetX: c.B, OffsetY: c.C, BlendMode: mux.BlendMode(c.D), DisposeMode: mux.DisposeMode(c.E)})
+				err = m.AddFrame(cm.frame[c.Src], &mux.FrameOptions{Duration: c.A, OffsetX: c.B, OffsetY: c.C, BlendMode: mux.BlendMode(c.D), DisposeMode: mux.DisposeMode(c.E)})
 			}
 			if err == nil {
 				mf := modelFrame{fb: fb}
@@ -308,20 +378,20 @@ func applyCalls(spec MuxSpec, blobs []*frameBlob, m *mux.Muxer, md *muxModel) {
 			md.bg = uint32(c.A)
 		case "seticc":
 			b := metaBlob(spec.Seed, "icc", c.Len)
-			m.SetICCProfile(b)
+			m.SetICCProfile(cm.put(b))
 			md.icc, md.hasICC = b, b != nil
 		case "setexif":
 			b := metaBlob(spec.Seed, "exif", c.Len)
-			m.SetEXIF(b)
+			m.SetEXIF(cm.put(b))
 			md.exif, md.hasEXIF = b, b != nil
 		case "setxmp":
 			b := metaBlob(spec.Seed, "xmp", c.Len)
-			m.SetXMP(b)
+			m.SetXMP(cm.put(b))
 			md.xmp, md.hasXMP = b, b != nil
 		case "addchunk":
 			b := metaBlob(spec.Seed, "chunk"+c.ID, c.Len)
 			id := binary.LittleEndian.Uint32([]byte(c.ID))
-			if err := m.AddChunk(id, b); err == nil {
+			if err := m.AddChunk(id, cm.put(b)); err == nil {
 				switch c.ID {
 				case "ICCP":
 					md.icc, md.hasICC = b, b != nil
@@ -346,6 +416,7 @@ func (propC14) Execute(pp any, x *X) *Violation {
 	var asmErr error
 	var viol *Violation
 	var priorBlobs []*frameBlob
+	midFired, midChecked := false, false
 	if p.Prior != nil {
 		priorBlobs = make([]*frameBlob, len(p.Prior.Srcs))
 		for i, s := range p.Prior.Srcs {
@@ -356,17 +427,54 @@ func (propC14) Execute(pp any, x *X) *Violation {
 		if p.Prior != nil {
 			pm := mux.NewMuxer()
 			var pmd muxModel
-			applyCalls(*p.Prior, priorBlobs, pm, &pmd)
+			applyCalls(*p.Prior, priorBlobs, pm, &pmd, nil)
 			pm.Assemble(&SimWriter{})
 		}
 		m := mux.NewMuxer()
-		applyCalls(p.Spec, blobs, m, &md)
+		cm := newCallerMem(blobs)
+		if p.Mid && p.MidAfter <= len(p.Spec.Calls) {
+			first, rest := p.Spec, p.Spec
+			first.Calls, rest.Calls = p.Spec.Calls[:p.MidAfter], p.Spec.Calls[p.MidAfter:]
+			applyCalls(first, blobs, m, &md, cm)
+			mw := &SimWriter{Fault: p.MidWF}
+			midErr := m.Assemble(mw)
+			midFired = mw.Fired
+			if mw.Fired && midErr == nil {
+				viol = &Violation{Prop: "C14", Sig: "write-fault-swallowed:" + p.MidWF.Kind, Detail: fmt.Sprintf("%s: a Write of the first Assemble failed (%s at %d) but Assemble returned nil", first, p.MidWF.Kind, p.MidWF.At)}
+				return
+			}
+			if midErr == nil && !mw.Fired {
+				snap := md
+				snap.frames = append([]modelFrame{}, md.frames...)
+				q := *p
+				q.Spec = first
+				if viol = checkMuxOutput(&q, &snap, mw.Data); viol != nil {
+					return
+				}
+				midChecked = true
+			}
+			applyCalls(rest, blobs, m, &md, cm)
+		} else {
+			applyCalls(p.Spec, blobs, m, &md, cm)
+		}
 		asmErr = m.Assemble(wr)
 		if asmErr != nil || wr.Fired {
 			return
 		}
 		viol = checkMuxOutput(p, &md, wr.Data)
 	})
+	if viol != nil && p.Mid {
+		viol.Detail = fmt.Sprintf("[the Muxer was assembled before, after %d calls, write fault %+v] ", p.MidAfter, p.MidWF) + viol.Detail
+	}
+	if midFired {
+		x.Fault("first_assemble_write_" + p.MidWF.Kind)
+	}
+	if midChecked {
+		x.Count("muxers_assembled_twice_both_verified", 1)
+	}
+	if p.Mid {
+		x.Count("muxers_assembled_mid_history", 1)
+	}
 	x.Case(hashString(p.Spec.String())^uint64(p.WF.At)<<32^hashString(p.WF.Kind), len(md.frames) > 0)
 	x.Workload(hashString(p.Spec.String()))
 	x.Count("muxer_calls", int64(len(p.Spec.Calls)))
